@@ -3,6 +3,7 @@ package rules
 import (
 	"fmt"
 	"go/token"
+	"go/types"
 	"sort"
 	"strings"
 
@@ -24,6 +25,19 @@ func storesTo(fn *ssa.Function, typ, field string) []*ssa.Store {
 		}
 	})
 	return out
+}
+
+// ifaceParam returns the (first) parameter of f whose type is the empty
+// interface: the pending message of Step/consider, the value matched against in try.
+func ifaceParam(f *ssa.Function) *ssa.Parameter {
+	for _, p := range f.Params {
+		if it, ok := p.Type().Underlying().(*types.Interface); ok && it.NumMethods() == 0 {
+			if _, named := p.Type().(*types.Named); !named {
+				return p
+			}
+		}
+	}
+	return nil
 }
 
 func C04(c *Ctx) {
@@ -209,7 +223,7 @@ func C04(c *Ctx) {
 							isMsg = f.True
 						}
 					}
-					if pr, isP := e.(*ssa.Parameter); isP && pr.Name() == "pending" {
+					if pr, isP := e.(*ssa.Parameter); isP && pr == ifaceParam(consider) {
 						if !isMsg {
 							okAg = false
 						}
@@ -234,7 +248,7 @@ func C04(c *Ctx) {
 				if !isB || bo.Op != token.EQL || !ssau.IsNilConst(bo.Y) {
 					continue
 				}
-				if pr, isP := bo.X.(*ssa.Parameter); isP && pr.Name() == "pending" && flow.EdgeDominates(consumer.Block(), 0, b) {
+				if pr, isP := bo.X.(*ssa.Parameter); isP && pr == ifaceParam(consider) && flow.EdgeDominates(consumer.Block(), 0, b) {
 					s := b.Succs[0]
 					if _, isRet := s.Instrs[len(s.Instrs)-1].(*ssa.Return); isRet && !flow.Reachable(s, tryCalls[0].Block(), nil) {
 						okMissing = true
@@ -271,7 +285,7 @@ func C04(c *Ctx) {
 			}
 		}
 		pr, isP := st.Val.(*ssa.Parameter)
-		c.R.Check(under && isP && pr.Name() == "pending", "C04-R3", "Step: Consumed = pending under the consumed flag", c.pos(st), "stored only when consider reports consumption", "Stride.Consumed is not (pending message iff message branching)")
+		c.R.Check(under && isP && pr == ifaceParam(step), "C04-R3", "Step: Consumed = pending under the consumed flag", c.pos(st), "stored only when consider reports consumption", "Stride.Consumed is not (pending message iff message branching)")
 	}
 	// branching-type constants
 	consts := map[string]bool{}
@@ -379,7 +393,7 @@ func C04(c *Ctx) {
 	_, patOK := isFieldLoad(matchCall.Common().Args[1], "core", "Branch", "Pattern")
 	agP, agOK := matchCall.Common().Args[2].(*ssa.Parameter)
 	bsP, bsOK := matchCall.Common().Args[3].(*ssa.Parameter)
-	c.R.Check(patOK && agOK && bsOK && agP.Name() == "against" && ssau.TypeIs(bsP.Type(), prog.Abs("match"), "Bindings"), "C04-R6", "try: Match(pattern, against, bs)", c.pos(matchCall), "the branch's own pattern against the given value with the given bindings", "the matcher is not applied to (branch pattern, value to match, current bindings)")
+	c.R.Check(patOK && agOK && bsOK && agP == ifaceParam(try) && ssau.TypeIs(bsP.Type(), prog.Abs("match"), "Bindings"), "C04-R6", "try: Match(pattern, against, bs)", c.pos(matchCall), "the branch's own pattern against the given value with the given bindings", "the matcher is not applied to (branch pattern, value to match, current bindings)")
 	// R6: plain no-match returns
 	nr := 0
 	for _, b := range try.Blocks {
